@@ -17,6 +17,7 @@ CONSTANTS
   MaxLines = 2
   Comments <- C_q
   MaxComments = 1
+  PrintOpts <- O_all
   FaultKinds <- F_all
 INVARIANT TypeOK
 INVARIANT RepeatedSpeciesSummed
